@@ -53,7 +53,10 @@ def read_unit(name):
 
 def unit_sections(name):
     """Parse a unit file into a list of sections."""
-    text = read_unit(name)
+    return parse_sections(read_unit(name), name)
+
+
+def parse_sections(text, name):
     lines = text.split("\n")
     secs = []
     i = 0
@@ -177,6 +180,15 @@ def real_tokens(repo, sec, log):
             subst[a] = rtok.strs(rtok.tokenize(b.replace("~", " ")))
         ss = rtok.substitute(ss, subst)
         log.append({"rule": "R6", "function": label, "from": "macro parameters", "to": kv["subst"]})
+    if "macro" in kv:
+        for mname in kv["macro"].split(","):
+            msrc = kv.get("macrosrc", sec["src"])
+            with open(os.path.join(repo, msrc)) as f:
+                mtext = f.read()
+            try:
+                ss = rtok.expand_macro(ss, mname, mtext, log, label)
+            except rtok.ExtractError as e:
+                raise UnitError(str(e))
     rules = [r for r in kv.get("rules", "R0").split(",") if r]
     for r in rules:
         if r == "R0":
@@ -213,7 +225,7 @@ def build(name, repo, outdir):
                 with open(os.path.join(CONTRACTS, sec["path"])) as f:
                     inc = f.read()
                 out.append("// ---- include %s\n" % sec["path"])
-                out.append(inc if inc.endswith("\n") else inc + "\n")
+                emit_sections(parse_sections(inc if inc.endswith("\n") else inc + "\n", sec["path"]), False)
             elif k == "stub":
                 l0 = cur_line()
                 out.append("// ---- stub %s (contract proved in that unit)\n" % sec["ref"])
